@@ -355,7 +355,7 @@ theorem reachableSep_nonvacuous (env : Env) (cfg : GenesisConfig)
     · intro e; injection e with e1; exact hrew e1
   have hpools : ∀ k, (genesisState cfg).pools.get k = none := fun k => rfl
   obtain ⟨ss, hs⟩ := sealState_ok env (genesisState cfg) none hg.counts (fun tx htx => nomatch htx) List.nodup_nil
-    (fun k p h => by rw [hpools] at h; cases h) (fun k _ p h => by rw [hpools] at h; cases h)
+    (fun k p h => by rw [hpools] at h; cases h)
     (fun k _ p h => by
       rcases createBuiltins_get (genesisState cfg) k with e | e
       · rw [e, hpools] at h; cases h
